@@ -26,5 +26,17 @@ print('1' if props.PROPS['$p'].get('parallel') else '')")
     (cd $crate && cargo build --release --offline --bin $bin --target-dir target 2>&1 | tail -2)
   fi
 done
+# extra correspondence streams (per-curve-crate parts living in harness2) and the constant dump used by gen_from
+EXTRA=$(python3 -c "
+import sys; sys.path.insert(0,'tools'); import props
+s=set()
+for k,v in props.PROPS.items():
+    for e in v.get('extra_streams', []): s.add(e['crate']+':'+e['bin'])
+    if v.get('gen_from'): s.add(props.PROPS[v['gen_from']].get('crate','harness')+':'+v['gen_from'].lower())
+print(' '.join(sorted(s)))")
+for cb in $EXTRA; do
+  crate=${cb%%:*}; bin=${cb##*:}
+  (cd $crate && cargo build --release --offline --bin $bin --target-dir target 2>&1 | tail -1)
+done
 (cd lean && lake build arkdrv Ark.Audit $MODS 2>&1 | tail -5)
 exit 0
